@@ -18,6 +18,7 @@ import GluonModel.Chan
 import GluonModel.Proofs.Chan
 import GluonModel.Proofs.ChanThreads
 import GluonModel.Proofs.ChanProgram
+import GluonModel.Proofs.ChanLink
 
 namespace GluonModel.Props.C17
 open GluonModel.Chan
@@ -262,6 +263,74 @@ theorem program_lazy_runs_at_most_once (d : Decls) (cells : Nat → Int) (th : N
   rw [hi.2 k]
   omega
 
+/-! ## The link `runOps` ⇒ `runTrace`, and what it transfers -/
+
+/-- EVERY program is a trace: whatever the thread bodies, the resume/yield schedule and the fuel, the
+    primitive calls the program made form one list `steps` of `(thread, caught?, op)` such that the
+    primitives' state is `runTrace`'s final state on it and the result events of the observation log
+    (kinds 1–6, 8, 9, oldest first) are exactly the result events of that trace. Hence every state
+    invariant of traces holds between any two operations of any program. -/
+theorem program_is_trace (d : Decls) (cells : Nat → Int) (th : Nat → TSt) (fuel tid : Nat) (ops : List Op) :
+    let s := (runOps d fuel tid ops { p := PState.init cells, th := th, log := [] }).1
+    ∃ steps : List Step,
+      s.p = (runTrace d (stepsTrace steps) (PState.init cells)).1 ∧
+      (s.log.filter isPrimKind).reverse = traceEvents d steps (PState.init cells) := by
+  have h0 : Linked d (PState.init cells) { p := PState.init cells, th := th, log := [] } :=
+    ⟨[], by simp [stepsTrace, runTrace], by simp [traceEvents]⟩
+  exact runOps_linked d _ fuel tid ops _ h0
+
+/-- Transfer of `trace_noBH` / `lazy_force_never_hangs` to programs: no program ever blocks in a force —
+    the run of any thread never ends `blocked` (the main thread: no hang) and no coroutine is ever left
+    waiting inside a force. -/
+theorem program_force_never_blocks (d : Decls) (n : Nat) (hf : FuelOk d n) (cells : Nat → Int)
+    (th : Nat → TSt) (hth : ∀ t, th t ≠ .blocked) (fuel tid : Nat) (ops : List Op) :
+    (runOps d fuel tid ops { p := PState.init cells, th := th, log := [] }).2 ≠ .blocked ∧
+    ∀ t, (runOps d fuel tid ops { p := PState.init cells, th := th, log := [] }).1.th t ≠ .blocked := by
+  have h0 : Linked d (PState.init cells) { p := PState.init cells, th := th, log := [] } :=
+    ⟨[], by simp [stepsTrace, runTrace], by simp [traceEvents]⟩
+  exact runOps_never_blocked d n hf.1 hf.2 cells fuel tid ops _ h0 hth
+
+/-- … and a force inside `catch` is answered at once: the newest log entry after the call is its value
+    (kind 8) or its error (kind 9), at any point of any program. -/
+theorem program_force_is_answered (d : Decls) (n : Nat) (hf : FuelOk d n) (cells : Nat → Int)
+    (th : Nat → TSt) (fuel tid : Nat) (ops : List Op) (tid' k : Nat) :
+    let s := (runOps d fuel tid ops { p := PState.init cells, th := th, log := [] }).1
+    ∃ e rest, (doPrim d tid' true (.force k) s).1.log = e :: rest ∧ e.tid = tid' ∧ e.a = (k : Int) ∧
+      (e.kind = 8 ∨ e.kind = 9) := by
+  have h0 : Linked d (PState.init cells) { p := PState.init cells, th := th, log := [] } :=
+    ⟨[], by simp [stepsTrace, runTrace], by simp [traceEvents]⟩
+  have hl := runOps_linked d _ fuel tid ops _ h0
+  have hno := linked_noBH d n hf.1 hf.2 cells _ hl
+  obtain ⟨h1, h2, _⟩ := force_top d n hf.1 hf.2 tid' k _ hno
+  exact doPrim_force_answered d tid' k _ h1 h2
+
+/-- THE FAILURE CLAUSE ON THE PROGRAM LOG: in the observation log of ANY program, once some force of
+    lazy `k` is logged as an error, no force of `k` by any thread is logged with a value, and every
+    logged error of `k` carries the same error class — whichever threads forced, in whatever order. -/
+theorem program_lazy_failure_errors (d : Decls) (n : Nat) (hf : FuelOk d n) (cells : Nat → Int)
+    (th : Nat → TSt) (fuel tid : Nat) (ops : List Op) (k : Nat) (e₁ e₂ : Ev)
+    (h₁ : e₁ ∈ (runOps d fuel tid ops { p := PState.init cells, th := th, log := [] }).1.log)
+    (h₂ : e₂ ∈ (runOps d fuel tid ops { p := PState.init cells, th := th, log := [] }).1.log)
+    (k₁ : e₁.kind = 9) (a₁ : e₁.a = (k : Int)) (a₂ : e₂.a = (k : Int)) :
+    e₂.kind ≠ 8 ∧ (e₂.kind = 9 → e₂.b = e₁.b) := by
+  have h0 : LinkFail d cells { p := PState.init cells, th := th, log := [] } :=
+    ⟨⟨[], by simp [stepsTrace, runTrace], by simp [traceEvents]⟩, by intro e he; simp at he⟩
+  have hi := (runOps_linkFail d n hf.1 hf.2 cells fuel tid ops _ h0).2
+  have hv : ForcesInv { p := PState.init cells, th := th, log := ([] : List Ev) } := by
+    intro e he; simp at he
+  have hvi := runOps_forcesInv d fuel tid ops _ hv
+  obtain ⟨err₁, c₁, f₁⟩ := hi e₁ h₁ k₁ k a₁
+  refine ⟨?_, ?_⟩
+  · intro k8
+    have := hvi e₂ h₂ k8 k a₂
+    rw [f₁] at this
+    cases this
+  · intro k9
+    obtain ⟨err₂, c₂, f₂⟩ := hi e₂ h₂ k9 k a₂
+    rw [f₁] at f₂
+    cases f₂
+    rw [← c₁, ← c₂]
+
 /-! ## Non-vacuity: concrete instances -/
 
 def exDecls : Decls := fun k => if k = 0 then .val 42 else if k = 1 then .boom else if k = 2 then .add 2 1 else .val 0
@@ -309,5 +378,26 @@ example : exProg.log.countP (isRun 0) = 0 := by decide
 example : (runOps exDecls 99 1 [.prim (.send 0 11), .yield, .prim (.send 0 12)]
     { p := PState.init (fun _ => 0), th := fun _ => .done, log := [] }).2 matches .yielded [.prim (.send 0 12)] := by
   decide
+
+-- the link on `exProg`: its five primitive calls, in the order the schedule made them
+example : (exProg.log.filter isPrimKind).reverse =
+    traceEvents exDecls [(1, true, .send 0 11), (0, true, .recv 0), (0, true, .recv 0), (1, true, .send 0 12),
+      (0, true, .recv 0)] (PState.init (fun _ => 0)) := by decide
+-- failure on the program log: coroutine 1 forces the failing lazy 1 inside `catch`, then main does: both
+-- are answered with the same error class (under the old rule main would have hung)
+def exFail : St × Out :=
+  runOps exDecls 100 0 [.resume 1, .prim (.force 1), .prim (.force 0)]
+    { p := PState.init (fun _ => 0), th := fun t => if t = 1 then .ready [.prim (.force 1)] else .done, log := [] }
+example : exFail.1.log.reverse.map (fun e => (e.tid, e.kind, e.a, e.b)) =
+    [(1, 7, 1, 0), (9, 10, 1, 0), (1, 9, 1, 2), (0, 11, 1, 0), (0, 7, 1, 0), (0, 9, 1, 2),
+     (0, 7, 0, 0), (9, 10, 0, 0), (0, 8, 0, 42)] := by decide
+example : exFail.2 matches .fin := by decide
+example : (⟨1, 9, 1, 2⟩ : Ev) ∈ exFail.1.log ∧ (⟨0, 9, 1, 2⟩ : Ev) ∈ exFail.1.log := by decide
+
+/- Open statements (not proved):
+   * that the real VM switches coroutines as `runOps` says (checked by correspondence only);
+   * the death of a thread by an UNCAUGHT failing force (event 13 of the resumer) is not tied to the
+     lazy in the log, so `program_lazy_failure_errors` speaks about forces inside `catch` (events 8/9);
+   * payloads other than `Int`; real OS threads. -/
 
 end GluonModel.Props.C17
